@@ -199,7 +199,9 @@ class CircularRecord(SeqRecord):
             else:
                 _newloc = []
                 for part in (loc + index).parts:
-                    if part.end >= len(newseq) and part.start >= len(newseq):
+                    if part.ref or part.ref_db:
+                        _newloc.append(part)  # located on another record
+                    elif part.end >= len(newseq) and part.start >= len(newseq):
                         r = part.start // len(newseq)  # remainder is used to
                         _newloc.append(
                             FeatureLocation(  # make sure that part.end
